@@ -77,6 +77,7 @@ type fnCtx struct {
 	fwd        map[string]*val
 	cells      map[*ssa.Alloc]*val // promoted non-escaping locals (whole-value cells), see promotable()
 	cellsOut   map[*ssa.BasicBlock]map[*ssa.Alloc]*val
+	dbgNames map[ssa.Value]string
 	promo      map[*ssa.Alloc]bool
 	sliceLos   []string
 }
@@ -888,7 +889,7 @@ func (fc *fnCtx) backEdge(b, s *ssa.BasicBlock, c *contract) {
 	if gle, ok := fc.loopGLEntry[s]; ok && fc.curH["GL"] != gle && g.lite {
 		// every iteration is lock-balanced (the header assumed the entry lock state)
 		g.oblige(obligation{name: fmt.Sprintf("lock:%s:loop%d:balanced-iteration", fc.oblFn(), n), kind: "lock", guard: e,
-			cond: fmt.Sprintf("(forall ((r Int)) (=> (< r %s) (= (select %s r) (select %s r))))", fc.loopEntryAC[s], fc.curH["GL"], gle), pos: fc.posOf(s)})
+			cond: fmt.Sprintf("(forall ((r Int)) (=> (and (< r %s) (not (= r %s))) (= (select %s r) (select %s r))))", fc.loopEntryAC[s], evRef, fc.curH["GL"], gle), pos: fc.posOf(s)})
 	}
 	// range loops: index stays in range automatically (no obligation needed: idx' = idx+1 < len is the loop condition)
 	if c == nil {
@@ -1407,7 +1408,7 @@ func (fc *fnCtx) promotable(a *ssa.Alloc) bool {
 	if r, ok := fc.promo[a]; ok {
 		return r
 	}
-	ok := !a.Heap && !fc.g.lite && a.Referrers() != nil
+	ok := !a.Heap && a.Referrers() != nil
 	if ok {
 		for _, ref := range *a.Referrers() {
 			switch x := ref.(type) {
